@@ -826,6 +826,7 @@ func runC17(c *Ctx, tier string) {
 	}
 	runOneCommitPerRequest(c, "C17-A1")
 	runReadResultsNilTested(c, "C17-M1")
+	runTailNeverMoves(c, "C17-T1")
 }
 
 func init() {
@@ -1001,5 +1002,22 @@ func runSlicerBounds(c *Ctx, rule string) {
 		c.OK(rule, "(*runtime/sam/op/meta.Slicer).stash overlap test", fn.Pos(), "object.Max < hull.min || object.Min > hull.max closes the partition")
 	} else {
 		c.Fail(rule, "(*runtime/sam/op/meta.Slicer).stash overlap test", fn.Pos(), "the new object is not compared strictly against both ends of the hull (object.Max < min, object.Min > max): overlapping objects can land in different partitions")
+	}
+}
+
+// C17-T1: nothing advances the journal's TAIL.
+func runTailNeverMoves(c *Ctx, rule string) {
+	p := c.P
+	c.Rule(rule, "journal.Queue.MoveTail has no caller: the fallback of journal.Store.load for an unreadable snapshot replays the journal from TAIL into an empty table, which rebuilds the whole table only while TAIL stays at the first entry")
+	sites := callSitesWhere(p, func(_ *ssa.CallCommon, n string) bool { return n == "(*lake/journal.Queue).MoveTail" })
+	for _, s := range sites {
+		c.Fail(rule, "journal.Queue.MoveTail called from "+topName(s.fn), s.ci.Pos(), "the journal's TAIL is advanced: after a crash while snap.zng is being rewritten in place, load falls back to replaying from TAIL into an empty table, hits an update of a key added before TAIL, and every branch lookup in the pool fails with `branch not found`")
+	}
+	if len(sites) == 0 {
+		if p.Func("(*lake/journal.Store).load") == nil {
+			c.Undecided(rule, "journal TAIL", "journal.Store.load does not resolve")
+			return
+		}
+		c.OK(rule, "journal TAIL", token.NoPos, "MoveTail is never called; TAIL stays at the first entry")
 	}
 }
